@@ -169,6 +169,8 @@ def main(chk, replay_file):
         J("init.determined", unit, "h_init_determined", functions=["Processor ctor", "HexSimIO ctor", "load"], note="two arbitrary host states, any image length up to 200000 words"),
         J("step.traced", unit, "h_step", defines=["TRACING_INIT=true"], replace=["lookupSymbol"], stop_on_fail=True, functions=["run() loop body", "trace", "traceSyscall", "syscall"],
           note="C02 step contract with tracing on"),
+        J("step.untraced", unit, "h_step", defines=["TRACING_INIT=false"], replace=["lookupSymbol"], stop_on_fail=True, functions=["run() loop body", "syscall"],
+          note="the same step contract with tracing off: in particular the cycle counter advances once per instruction in both modes, so --max-cycles cuts a run short at the same point"),
         J("trace.frame", unit, "h_trace_frame", enforce="trace", replace=["lookupSymbol"], functions=["trace"], role="aux"),
         J("traceSyscall.frame", unit, "h_traceSyscall_frame", enforce="traceSyscall", functions=["traceSyscall"], role="aux"),
         J("run_loop.contract", unit, "h_run_loop", functions=["run() loop condition and return"]),
@@ -190,6 +192,8 @@ def main(chk, replay_file):
             confirmed = False
             if j.name.startswith("init") and nat.get("ok") is False:
                 confirmed = True
+            if j.name.startswith("step.") and nat.get("ok") is False and ("cycle" in nat.get("why", "") or "tracing" in nat.get("why", "")):
+                confirmed = True   # the native stage's traced/untraced and cycle-limited runs fail on the real simulator
             json.dump({"property": PID, "obligation": name, "desc": f["desc"], "verifier_counterexample": f.get("cex"), "real_code_result": nat,
                        "how": "./check C12 --replay x"}, open(p, "w"), indent=1)
             chk.add_violation(name, p, f["desc"] + ("; real hexsim: " + nat.get("why", "") if confirmed else ""), confirmed)
